@@ -14,8 +14,10 @@ import (
 	"errors"
 	"fmt"
 	"net/http"
+	"net/url"
 	"sort"
 	"strings"
+	"time"
 
 	"github.com/wundergraph/astjson"
 
@@ -43,6 +45,8 @@ type sfEnv struct {
 	reference bool // reference phase: faults are looked up, never decided; no parking
 	inflight  int
 	maxInfl   int
+	// wrapCancel: cancelled loads fail with a *url.Error wrapping the context error (net/http style)
+	wrapCancel bool
 }
 
 type sfDS struct {
@@ -79,7 +83,11 @@ func (d *sfDS) Load(ctx context.Context, headers http.Header, input []byte) ([]b
 	// the request is "on the wire": the scheduler decides when the answer arrives
 	simrt.YieldClass("ds.load:"+d.id, simrt.ClassNet)
 	if err := ctx.Err(); err != nil {
-		// a real HTTP client returns the context error of a cancelled request
+		// a real HTTP client returns the context error of a cancelled request — net/http wraps it
+		// in a *url.Error, other clients return it bare; both shapes occur (per data source)
+		if e.wrapCancel {
+			return nil, &url.Error{Op: "Post", URL: "http://" + d.id, Err: err}
+		}
 		return nil, err
 	}
 	fk := key
@@ -247,6 +255,7 @@ func runSF(r *core.Run) {
 	plans := sfPlans(env)
 	W := r.W
 	env.faultMode = r.Flag("nofaults") == "" && W.Prob(0.4)
+	env.wrapCancel = W.Prob(0.5)
 	nClients := 2 + W.Weighted([]int{4, 3, 2, 1})
 	maxConc := 1 + W.Intn(4)
 	shards := 1 + W.Intn(3)
@@ -306,7 +315,11 @@ func runSF(r *core.Run) {
 		}
 		return true
 	}
+	// periodic timers (the resolver's heartbeat ticker) keep producing runnable tasks, so a wedge is
+	// judged by simulated time, not only by idleness
+	r.SimDeadline = 30 * time.Second
 	out := r.RunUntil(allReturned, 100)
+	r.SimDeadline = 0
 	switch out {
 	case core.OutIdle:
 		var stuck []string
@@ -315,7 +328,7 @@ func runSF(r *core.Run) {
 				stuck = append(stuck, fmt.Sprintf("c%d(%s)", i, q.spec()))
 			}
 		}
-		r.Fail(prop, "wedge", "client", "clients never returned although nothing is runnable and 10 simulated seconds passed: %s", strings.Join(stuck, " "))
+		r.Fail(prop, "wedge", "client", "clients never returned within 30 simulated seconds although every load was answered: %s", strings.Join(stuck, " "))
 	case core.OutBudget, core.OutStopped:
 	}
 	for _, c := range cancels {
